@@ -39,6 +39,37 @@ def convert_slice(_slice: Slice) -> Call:
     )
 
 
+def convert_subscript_index(index: expr, transf: typing.Callable[[expr], expr]) -> expr:
+    """
+    Convert the index of a subscript to an expr which is able to be
+    used as an argument of `__getitem__`/`__setitem__`.
+    The sub-exprs of the index are transformed by `transf`.
+    """
+
+    def _transf_slice(_slice: Slice) -> Call:
+        _transf = lambda v: None if v is None else transf(v)
+        return convert_slice(
+            Slice(
+                lower=_transf(_slice.lower),
+                upper=_transf(_slice.upper),
+                step=_transf(_slice.step),
+            )
+        )
+
+    if isinstance(index, Slice):
+        return _transf_slice(index)
+    if isinstance(index, Tuple) and any(isinstance(i, Slice) for i in index.elts):
+        # a[1:2, 3]
+        return Tuple(
+            elts=[
+                _transf_slice(i) if isinstance(i, Slice) else transf(i)
+                for i in index.elts
+            ],
+            ctx=Load(),
+        )
+    return transf(index)
+
+
 def list_wrapper(nodes: list[expr]) -> expr:
     return List(elts=nodes, ctx=Load())
 
